@@ -70,33 +70,66 @@ def _problem(wide):
     return pb
 
 
-def _make_search(run, idx, log_dir, side):
-    """one search of a scenario; its run-function appends '<idx>.<job id> <status>' to the
-    completion log with a single O_APPEND write just before it returns"""
+def _make_search(run, idx, log_dir, side, reuse=None):
+    """one search of a scenario; its run-function appends '<idx>.<job id>' to the completion log
+    with a single O_APPEND write just before it returns.  `reuse` = a search whose evaluator (and
+    run-function) is handed to the new search, as a user who keeps one evaluator would do."""
+    import asyncio
+
     from deephyper.evaluator import Evaluator
-    from deephyper.hpo import CBO, RandomSearch
+    from deephyper.hpo import CBO, ExperimentalDesignSearch, RandomSearch, RegularizedEvolution
 
-    fd = os.open(os.path.join(side, "done.log"), os.O_WRONLY | os.O_CREAT | os.O_APPEND, 0o644)
-    nobj, fail = run["nobj"], run.get("fail", "none")
+    if reuse is not None:
+        ev, cell = reuse._evaluator, reuse._c15_cell
+        cell["idx"] = idx
+    else:
+        fd = os.open(os.path.join(side, "done.log"), os.O_WRONLY | os.O_CREAT | os.O_APPEND, 0o644)
+        nobj, fail, batch, sleep = run["nobj"], run.get("fail", "none"), run["batch"], run.get("sleep", False)
+        cell = {"idx": idx, "first": None}
 
-    async def run_function(job):
-        jid = int(job.id.split(".")[1])
-        x, k = job.parameters["x"], job.parameters["k"]
-        failed = (fail == "first" and jid < run["batch"]) or (fail == "some" and jid % 3 == 1) or fail == "all"
-        os.write(fd, f"{idx}.{jid}\n".encode())
-        if failed:
-            return "F_injected"
-        if nobj == 1:
-            return x + k
-        return tuple(x * (i + 1) - k * (1 - i) for i in range(nobj))
+        async def run_function(job):
+            jid = int(job.id.split(".")[1])
+            if cell["first"] is None:
+                cell["first"] = jid
+            x, k = job.parameters["x"], job.parameters["k"]
+            rel = jid - cell["first"]
+            failed = (fail == "first" and rel < batch) or (fail == "some" and rel % 3 == 1) or fail == "all"
+            if sleep:
+                await asyncio.sleep(0.04 + 0.09 * (jid % 3))
+            os.write(fd, f"{cell['idx']}.{jid}\n".encode())
+            if failed:
+                return "F_injected"
+            if nobj == 1:
+                return x + k
+            return tuple(x * (i + 1) - k * (1 - i) for i in range(nobj))
 
-    ev = Evaluator.create(run_function, method="serial", method_kwargs={"num_workers": run["batch"]})
+        ev = Evaluator.create(run_function, method="serial", method_kwargs={"num_workers": run["batch"]})
     pb = _problem(run.get("wide", 0))
-    if run["kind"] == "random":
-        return RandomSearch(pb, ev, log_dir=log_dir, random_state=run.get("seed", 1))
-    return CBO(pb, ev, log_dir=log_dir, random_state=run.get("seed", 1), surrogate_model="ET",
-               surrogate_model_kwargs={"n_estimators": 2}, n_initial_points=2, n_points=64,
-               acq_optimizer="sampling", verbose=0)
+    kind, seed = run["kind"], run.get("seed", 1)
+    if kind == "random":
+        s = RandomSearch(pb, ev, log_dir=log_dir, random_state=seed)
+    elif kind == "regevo":
+        s = RegularizedEvolution(pb, ev, log_dir=log_dir, random_state=seed, population_size=4, sample_size=2)
+    elif kind == "eds":
+        s = ExperimentalDesignSearch(pb, ev, log_dir=log_dir, random_state=seed, n_points=64, design="random")
+    elif kind == "cbo-default":
+        s = CBO(pb, ev, log_dir=log_dir, random_state=seed, verbose=0)  # every option at its default
+    elif kind == "cbo-dummy":
+        s = CBO(pb, ev, log_dir=log_dir, random_state=seed, surrogate_model="DUMMY", verbose=0)
+    else:
+        s = CBO(pb, ev, log_dir=log_dir, random_state=seed, surrogate_model="ET",
+                surrogate_model_kwargs={"n_estimators": 2}, n_initial_points=2, n_points=64,
+                acq_optimizer="sampling", verbose=0)
+    s._c15_cell = cell
+    return s
+
+
+def _do_calls(s, run):
+    for c in run["calls"]:
+        if isinstance(c, dict):
+            s.search(timeout=c["t"])
+        else:
+            s.search(max_evals=c)
 
 
 def _program(scn, log_dir, side):
@@ -105,18 +138,23 @@ def _program(scn, log_dir, side):
         time.strftime = lambda *a, **k: CONST_STAMP
     mark = os.open(os.path.join(side, "marks.log"), os.O_WRONLY | os.O_CREAT | os.O_APPEND, 0o644)
 
+    state = {"prev": None}
+
     def create(idx, run):
         os.write(mark, f"run {idx}\n".encode())
-        s = _make_search(run, idx, log_dir, side)
+        d = log_dir
+        if run.get("elsewhere"):
+            d = os.path.join(side, f"elsewhere_{idx}")  # a search in another (untraced) directory
+        s = _make_search(run, idx, d, side, reuse=state["prev"] if run.get("reuse") else None)
+        state["prev"] = s
         os.write(mark, f"created {idx}\n".encode())
         return s
 
     def act(idx, run, s):
         os.write(mark, f"act {idx}\n".encode())
-        for c in run["calls"]:
-            s.search(max_evals=c)
+        _do_calls(s, run)
         res = os.path.join(log_dir, "results.csv")
-        if os.path.exists(res):
+        if os.path.exists(res) and not run.get("elsewhere"):
             # the harness's own read of results.csv is bracketed by markers so that it is not taken for the code's
             os.write(mark, f"snap {idx}\n".encode())
             shutil.copyfile(res, os.path.join(side, f"snap_{idx}.csv"))
@@ -163,7 +201,7 @@ def _continuation(scn, log_dir, side):
     before = set(os.listdir(log_dir))
     try:
         idx = len(scn["runs"])
-        s2 = _make_search({**last, "kind": "cbo", "batch": 2, "fail": "none", "seed": 5}, idx, log_dir, side)
+        s2 = _make_search({**last, "kind": "cbo", "batch": 2, "fail": "none", "seed": 5, "sleep": False}, idx, log_dir, side)
         new = sorted(set(os.listdir(log_dir)) - before)
         out["new_files"] = new
         if len(new) == 1 and "fit" in out and out["fit"] == "ok":
@@ -672,6 +710,16 @@ def _acts_of(scn, rec):
         for r in runs[1:]:
             acts += [{"a": "resume"}] + r["acts"]
         runs = [{"stamp": runs[0]["stamp"], "acts": acts, "cut": 10 ** 9}]
+    elif any(r.get("reuse") or r.get("elsewhere") for r in scn["runs"]):
+        # one process; a search given the evaluator of the previous one is `recreate`; searches in another
+        # directory leave no trace here
+        here = [(r, m) for r, m in zip(scn["runs"], runs) if not r.get("elsewhere")]
+        acts = []
+        for i, (r, m) in enumerate(here):
+            if i:
+                acts.append({"a": "recreate" if r.get("reuse") else "create", "stamp": m["stamp"]})
+            acts += m["acts"]
+        runs = [{"stamp": here[0][1]["stamp"] if here else "", "acts": acts, "cut": 10 ** 9}]
     return runs, gs
 
 
